@@ -136,22 +136,48 @@ theorem wordLoads_attempt (inp : Nat → Nat) (pos : Nat) :
 abbrev sctx (nowNs : Int) (sizes : List (String × Nat)) (inp : Nat → Nat) : Ctx :=
   Code.ctxWith nowNs DictShm.ext sizes (rawInp inp)
 
-/-! ### names of the local variables, read off the generated AST (so that a renaming is not a proof change) -/
+/-- how a loop state is built from: remaining budget, generation to confirm, cached generation, cached
+    record, log, position in the input stream -/
+abbrev MkSt := Nat → Nat → Nat → List Nat → List Value → Nat → St
 
-/-- the names bound by the top-level `let x = ..;` statements of a body, in order -/
-def topLets : List Stmt → List String
+/-! ### the layout of the loop state, read off a PROBE run (so that names, number and order of the local
+  variables, helper functions and accessor methods are not in the proofs)
+
+  The statements of `snapshot` before its retry loop are run on a probe input — version 7, generation 10, cached
+  generation 3 — for which no early return is taken; the environment this leaves is the layout of the state at
+  the head of the loop, and `relabel` puts the actual values where the probe values are: the generation to
+  confirm for 10, the version for 7, the retry budget for the literal 1000000 (if the loop counts down), the
+  reader for the probe reader. -/
+
+/-- the statements before the first top-level loop of a body -/
+def loopPrefix : List Stmt → List Stmt
   | [] => []
-  | .letS (.bind x) _ _ _ :: rest => x :: topLets rest
-  | _ :: rest => topLets rest
+  | s :: rest =>
+    match s with
+    | .expr (.whileE _ _) _ => []
+    | .expr (.forE _ _ _) _ => []
+    | .expr (.loopE _) _ => []
+    | _ => s :: loopPrefix rest
 
-def nth : List String → Nat → String
-  | [], _ => ""
-  | x :: _, 0 => x
-  | _ :: r, n + 1 => nth r n
+def probeInp : Nat → Nat := fun k => if k = 0 then 7 else 10
 
-/-- the i-th top-level local of `ShmReader::snapshot`: 0 the version cell, 1 the version value, 2 the
-    generation cell, 3 the generation to confirm, 4 (while form only) the retry counter -/
-def nm (i : Nat) : String := nth (topLets Code.fn_ShmReader__snapshot_stmts) i
+/-- the local variables at the head of the retry loop on the probe input -/
+def probeEnv : List (String × Value) :=
+  match evalBlock 150 (sctx 0 [] probeInp) sfr (loopPrefix Code.fn_ShmReader__snapshot_stmts)
+      { env := [("self", readerValue 3 [])], log := [], pos := 0 } with
+  | .val _ st => st.env
+  | _ => []
+
+/-- the actual values for the probe values -/
+def relabel (tc : IntTy) (k g1 v cg : Nat) (cache : List Nat) : Value → Value
+  | .int t n => if n = 10 then .int t g1 else if n = 7 then .int t v else if n = 1000000 then .int tc k else .int t n
+  | .struct "ShmReader" _ => readerValue cg cache
+  | x => x
+
+/-- the state at the head of the retry loop: `tc`, `k` the type and value of the retry counter (if there is one),
+    `g1` the generation to confirm, `v` the version read -/
+def LSg (tc : IntTy) (v : Nat) : MkSt := fun k g1 cg cache lg pos =>
+  { env := probeEnv.map fun p => (p.1, relabel tc k g1 v cg cache p.2), log := lg, pos := pos }
 
 /-- the first top-level `for` of a body: pattern, iterator, body (`findWhile`'s counterpart) -/
 def findFor : List Stmt → Option (Pat × Expr × List Stmt)
@@ -162,10 +188,6 @@ def findFor : List Stmt → Option (Pat × Expr × List Stmt)
     | _ => findFor rest
 
 /-! ### the retry loop of the CODE in closed form, generic in how the interpreter state is laid out -/
-
-/-- how a loop state is built from: remaining budget, generation to confirm, cached generation, cached
-    record, log, position in the input stream -/
-abbrev MkSt := Nat → Nat → Nat → List Nat → List Value → Nat → St
 
 /-- same recursion as `SL.readerLoop`, but with the whole interpreter state (`mk` lays out the first
     iteration, `mk'` the later ones: the `while` form changes the type of its counter after the first
